@@ -11,6 +11,7 @@ fn main() {
     let args = parse_args(&argv[1..]);
     let code = match id.as_str() {
         "C01" => run_check(c01::C01, &args),
+        "C02" => run_check(c02::C02, &args),
         "C03" => run_check(c03::C03, &args),
         "C14" => run_check(c14::C14, &args),
         "C16" => run_check(c16::C16, &args),
